@@ -355,3 +355,129 @@ def open_hang_cases():
     add("H4:eq:40", "compile", "from t | filter " + "(a == (" * 40)
     out[-1]["target"] = "sql.generic"
     return out
+
+
+# ----------------------------------------------------------------------------- closure application (Model/Closure.v)
+# how each std special function is called in generated programs: the positional arguments in front of the relation
+STD_CALLS = {
+    "take": ["5"], "derive": ["{y = 1}"], "filter": ["true"], "select": ["{y = 1}"], "sort": ["{}"],
+    "loop": [("pipe", "filter")], "group": ["{}", ("pipe", "take")], "window": [("pipe", "derive")],
+}
+
+
+def _codes(s):
+    return "[" + ";".join(str(ord(c)) for c in s) + "]%N"
+
+
+def closure_programs(ck, decls):
+    """random terms of Model/Closure.v's expr over the std transforms, with their PRQL rendering.
+    term: ("std", name) | ("lam", p, body) | ("app", callee, [args]) | ("val", text)"""
+    rng = ck.rng
+    sig = {n: (a, b) for n, i, a, b in decls if n == i}
+
+    def std_call(name, drop=0, extra=0):
+        args = []
+        for a in STD_CALLS[name]:
+            args.append(("app", ("std", a[1]), [("val", t) for t in STD_CALLS[a[1]]]) if isinstance(a, tuple) else ("val", a))
+        args = args[:max(0, len(args) - drop)] + [("val", "(from u)")] * extra
+        return ("app", ("std", name), args) if args else ("std", name)
+
+    def gen(depth):
+        name = rng.choice(list(STD_CALLS))
+        u = rng.random()
+        # (arguments of lambdas are relations: an argument that overflows the lambda's own parameters lands in the relation
+        #  parameter of the transform, and the resolver type-checks arguments before it reaches unpack)
+        t = std_call(name, drop=len(STD_CALLS[name]) if u < 0.1 and name in ("take", "derive", "select", "sort") else 0, extra=1 if u > 0.93 else 0)
+        for _ in range(depth):
+            p = rng.choice([0, 0, 1, 1, 2])
+            t = ("lam", p, t)
+            q = rng.choice([p, p, p, max(0, p - 1), p + 1])
+            if q or rng.random() < 0.5:
+                t = ("app", t, [("val", "(from u)")] * q) if q else t
+        return t
+
+    counter = [0]
+
+    def render(t):
+        if t[0] == "val":
+            return t[1]
+        if t[0] == "std":
+            return t[1]
+        if t[0] == "lam":
+            counter[0] += 1
+            ps = " ".join("x%d_%d" % (counter[0], i) for i in range(t[1]))
+            return "(func %s-> %s)" % (ps + " " if ps else "", render(t[2]))
+        return "(%s %s)" % (render(t[1]), " ".join(render(a) for a in t[2])) if t[2] else render(t[1])
+
+    def model(t):
+        if t[0] == "val":
+            return "Val"
+        if t[0] == "std":
+            a, b = sig[t[1]]
+            return "(Fn %d %d [] (Internal %s))" % (a, b, _codes(t[1]))
+        if t[0] == "lam":
+            return "(Fn 0 %d [] (Body %s))" % (t[1], model(t[2]))
+        return "(App %s [%s])" % (model(t[1]), "; ".join(model(a) for a in t[2]))
+
+    out = []
+    directed = [
+        ("lam", 0, std_call("take")), ("app", ("lam", 1, std_call("take")), [("val", "(from u)")]), ("lam", 1, std_call("take")),
+        std_call("take"), std_call("take", drop=1), std_call("take", extra=1), ("lam", 0, std_call("window")),
+        ("app", ("lam", 2, std_call("derive")), [("val", "(from u)")]), ("app", ("lam", 1, ("lam", 0, std_call("filter"))), [("val", "(from u)")]),
+        ("lam", 0, ("lam", 0, std_call("select"))), ("app", ("lam", 0, std_call("take")), [("val", "(from u)")]),
+    ]
+    for t in directed + [gen(rng.choice([0, 1, 1, 2, 2, 3])) for _ in range(ck.n(160, 1500))]:
+        counter[0] = 0
+        stage = render(t)
+        out.append(("from t | " + stage, "(App %s [Val])" % model(t), t))
+    return out
+
+
+def closure_correspondence(ck, ginfo):
+    """Model/Closure.v fold vs the resolver: which of {value, function, too many arguments, bad special function cast}
+    a program made of lambdas around partially applied std transforms ends in."""
+    if "error" in ginfo:
+        return
+    progs = closure_programs(ck, ginfo["decls"])
+    progs = list({p[0]: p for p in progs}.values())
+    impl = probe([{"entry": "rq", "src": p[0], "stack_mb": 64} for p in progs], cap_ms=20000)
+    header = ("From Coq Require Import List NArith.\nFrom PV Require Import Lib.ListX Model.Closure Gen.GenUnpack.\n"
+              "Import ListNotations.\n")
+    try:
+        model = coq_eval(header, ["fold (arity_of GenUnpack.arms) 60 %s" % p[1] for p in progs])
+    except RuntimeError as ex:
+        ck.coverage["model_eval_error"] = str(ex)[-400:]
+        model = None
+    for i, (p, a) in enumerate(zip(progs, impl)):
+        ck.count("corr-closure-arity", p[0])
+        r = a.get("r", a)
+        reason = (r["err"][0].get("reason") or "") if "err" in r and r["err"] else ""
+        if "ok" in r:
+            got = "Val"
+        elif "panic" in r:
+            got = "BadCast" if "bad special function cast" in r["panic"].get("msg", "") else "Panic:" + r["panic"].get("msg", "")[:80]
+        elif reason.startswith("Too many arguments"):
+            got = "TooMany"
+        elif "expected a pipeline that resolves to a table" in reason or "expected type `relation`" in reason or "but found type `func" in reason:
+            got = "Fn"
+        elif "expected a function" in reason:
+            got = "NotAFunction"
+        else:
+            got = "Other:" + (reason or json.dumps(a))[:120]
+        ck.stat("corr-closure-arity", "impl:" + got.split(":")[0])
+        if model is None:
+            continue
+        mv = model[i]
+        if mv in ("TooMany", "NotAFunction", "Fuel"):
+            m = mv
+        elif mv[0] == "BadCast":
+            m = "BadCast"
+        else:
+            m = "Val" if mv[1] == "Val" else "Fn"
+        if m == got == "BadCast":
+            # the model predicts this panic: an instance of the open finding C12-N14 (classified by the model, not by a regex)
+            ck.disagreement("panic `bad special function cast` predicted by Model/Closure.v on `%s`" % p[0],
+                            {"src": p[0], "entry": "rq", "model": str(mv)[:200], "kind": "model-predicted-panic"}, lambda _c: "C12-N14-parameterless-lambda-transform")
+        if m != got:
+            ck.violation("Model/Closure.v fold differs from the resolver on `%s`: model %s, impl %s" % (p[0], m, got),
+                         {"src": p[0], "entry": "rq", "model": str(mv)[:300], "impl": got, "term": p[1], "kind": "correspondence"})
